@@ -545,8 +545,9 @@ def channelTie : List Skel :=
   [ .act (.store "tie_" "obj"),
     .act (.store "tied_" "true") ]
 
-/-- `Model/Loop.lean`'s eventfd counter `ev` starts at 0; NON-BLOCKING (a `handleRead` on a counter that is 0 must not
-block the loop) and close-on-exec; a failure ends the process (`LOG_SYSERR` + `abort()`) -/
+/-- `Model/Loop.lean`'s eventfd counter `ev` starts at 0 (`Loop.init`: `ev := 0`) and is NOT a semaphore (no
+`EFD_SEMAPHORE`: ONE read resets it, `ev := 0` in the `.wake` step); NON-BLOCKING (a `handleRead` on a counter that is 0
+must not block the loop) and close-on-exec; a failure ends the process (`LOG_SYSERR` + `abort()`) -/
 def createEventfd : List Skel :=
   [ .act (.sys "eventfd" "0, EFD_NONBLOCK | EFD_CLOEXEC"),
     .act (.assign "evtfd" "<result>"),
